@@ -135,6 +135,15 @@ func genC18(r *rand.Rand, t *Trace, thorough bool) {
 				v[i] = float32(math.Copysign(0, -1))
 			}
 			st = "preprocess.negzero"
+		case 3, 4:
+			// already (or almost) unit length: a "nothing to do" shortcut must still produce the same bits
+			if u := comet.Normalize(v); len(u) == len(v) {
+				eps := []float64{0, 1e-7, -1e-7, 1e-6, -1e-5, 1e-4, -3e-4, 4.9e-4, -4.9e-4, 1e-3, -2e-3}[r.Intn(11)]
+				for i := range v {
+					v[i] = float32(float64(u[i]) * (1 + eps))
+				}
+				st = "preprocess.near_unit"
+			}
 		}
 		orig := cloneVec(v)
 		out, err := d.Preprocess(v)
@@ -153,6 +162,15 @@ func genC18(r *rand.Rand, t *Trace, thorough bool) {
 				v[i] = 0
 			}
 			t.Stat("helpers.zero")
+		}
+		if r.Intn(5) == 0 {
+			if u := comet.Normalize(v); len(u) == len(v) {
+				eps := []float64{0, 1e-7, -1e-6, 1e-4, -3e-4, 4.9e-4, -1e-3}[r.Intn(7)]
+				for i := range v {
+					v[i] = float32(float64(u[i]) * (1 + eps))
+				}
+				t.Stat("helpers.near_unit")
+			}
 		}
 		orig := cloneVec(v)
 		c := rndF32(r)
